@@ -712,3 +712,20 @@ def register(ex):
              eval_mode("rl4co/models/zoo/mdam/model.py", "rollout", 1))
     ex.probe("mdamRolloutPlainConcat", "Bool", "true",
              "zoo/mdam/model.py:rollout  `DataLoader(dataset, batch_size=…, collate_fn=…)`, `torch.cat([eval_model(batch) for batch in dl], 0)`", mdam_concat)
+
+    def fjsp_starts_delegate():
+        """`FJSPEnv.select_start_nodes` (inherited by JSSPEnv) is `return sample_n_random_actions(td, num_starts)` (true) /
+        draws itself with `torch.multinomial(…)` (false)"""
+        fn = _fn("rl4co/envs/scheduling/fjsp/env.py", "FJSPEnv.select_start_nodes")
+        if fn is None:
+            return None
+        b = _body(fn)
+        if len(b) == 1 and isinstance(b[0], ast.Return) and isinstance(b[0].value, ast.Call) \
+                and _u(b[0].value.func) == "sample_n_random_actions" and [_u(a) for a in b[0].value.args] == ["td", "num_starts"]:
+            return "true"
+        if any(isinstance(c, ast.Call) and _u(c.func).endswith("multinomial") for c in ast.walk(fn)):
+            return "false"
+        return None
+
+    ex.probe("fjspStartsDelegate", "Bool", "true",
+             "envs/scheduling/fjsp/env.py:FJSPEnv.select_start_nodes  `return sample_n_random_actions(td, num_starts)`", fjsp_starts_delegate)
